@@ -20,10 +20,11 @@ Definition do_lock_rule (locked cur_count req_count : N) : bool :=
     else (cur_count =? 65535) && (req_count =? 65535)
   else (locked <=? cur_count) && (locked <=? req_count).
 
+Definition cur_count (s : db) (k : N) : N :=
+  match m_cur (getm s k) with Some c => c_count (l_cmd (getl s c)) | None => 0 end.
+
 Definition do_lock (s : db) (k : N) (r : ref) : bool :=
-  let m := getm s k in
-  let cc := match m_cur m with Some c => c_count (l_cmd (getl s c)) | None => 0 end in
-  do_lock_rule (m_locked m) cc (c_count (l_cmd (getl s r))).
+  do_lock_rule (m_locked (getm s k)) (cur_count s k) (c_count (l_cmd (getl s r))).
 
 Definition check_wait_priority (s : db) (k : N) (c : cmd) : bool :=
   match m_wait (getm s k) with
@@ -238,7 +239,7 @@ Definition lock_step (s : db) (conn : N) (c : cmd) : db * list event * option wa
               let s2 := updl s2 r (fun l => l <| l_conn := conn |>) in
               let '(s3, e3) := if l_isaof (getl s2 r) then push_lock_aof s2 k r AOF_FLAG_UPDATED else (s2, []) in
               let s3 := bump (fun n => n <| n_lock := (n_lock n + 1)%Z |> <| n_locked := (n_locked n + 1)%Z |>) s3 in
-              (Some (s3, [EGrant k r false (m_locked m)] ++ pev ++ aev ++ e3
+              (Some (s3, [EGrant k r false (m_locked m) (cur_count s k) (c_count c1)] ++ pev ++ aev ++ e3
                          ++ [reply conn c1 R_SUCCED (m_locked (getm s3 k)) (l_locked (getl s3 r)) ldata], None), c1, m_waited m)
           else
             (Some (s, [reply conn c1 R_LOCKED_ERROR (m_locked m) (l_locked l) ldata], None), c1, m_waited m)
@@ -261,6 +262,7 @@ Definition lock_step (s : db) (conn : N) (c : cmd) : db * list event * option wa
     let wk := if require_wakeup then Some (mkWake k (Some conn)) else None in
     if 0 <? c_expried c then
       let before := m_locked m in
+      let cc := cur_count s k in
       let s := add_lock s k r in
       let s := updm s k (fun m => m <| m_locked := add32 (m_locked m) 1 |>) in
       let l := getl s r in
@@ -271,7 +273,7 @@ Definition lock_step (s : db) (conn : N) (c : cmd) : db * list event * option wa
         let s := updl s r (fun l => l <| l_refc := add8 (l_refc l) 2 |>) in
         let '(s, aev) := push_lock_aof s k r 0 in
         let s := bump (fun n => n <| n_lock := (n_lock n + 1)%Z |> <| n_locked := (n_locked n + 1)%Z |>) s in
-        (s, [EGrant k r true before] ++ pev ++ aev, None)
+        (s, [EGrant k r true before cc (c_count c)] ++ pev ++ aev, None)
       else
         let ldata := data_of s k in
         let '(s, pev) := if has_data_flag c then process_data s k r c false else (s, []) in
@@ -279,7 +281,7 @@ Definition lock_step (s : db) (conn : N) (c : cmd) : db * list event * option wa
         let '(s, aev) := add_expried s k r in
         let s := updl s r (fun l => l <| l_refc := add8 (l_refc l) 1 |>) in
         let s := bump (fun n => n <| n_lock := (n_lock n + 1)%Z |> <| n_locked := (n_locked n + 1)%Z |>) s in
-        (s, [EGrant k r true before] ++ pev ++ aev ++ [reply conn c R_SUCCED (m_locked (getm s k)) (l_locked (getl s r)) ldata], wk)
+        (s, [EGrant k r true before cc (c_count c)] ++ pev ++ aev ++ [reply conn c R_SUCCED (m_locked (getm s k)) (l_locked (getl s r)) ldata], wk)
     else
       (* Expried = 0: value write / probe without a hold *)
       let ldata := data_of s k in
